@@ -180,7 +180,8 @@ Definition upd_root (ex nw : json) : list json * json := upd_val (fun x => x) ex
 
 (* ------------------------------------------------------------------ the world *)
 Inductive ev :=
-| EvMkdir (p : path) | EvWrite (p : path) | EvRename (a b : path) | EvUnlink (p : path) | EvCopytree (a b : path).
+| EvMkdir (p : path) | EvWrite (p : path) | EvRename (a b : path) | EvUnlink (p : path) | EvCopytree (a b : path)
+| EvRmtree (p : path).
 
 Inductive fail := FExn (e : exn) | FOs (e : errno).
 Definition res (A : Type) := (A + fail)%type.
@@ -245,6 +246,10 @@ Definition job_dirs (f : fs) (wsd : path) : list str :=
   end.
 
 (* ------------------------------------------------------------------ operations and observations *)
+(* one job as seen through a fresh Project: id, statepoint() (None = raises), document() (None = raises),
+   recursive listing of the other files *)
+Record jview := mkJV { v_id : str; v_sp : option json; v_doc : option json; v_files : list (path * list N) }.
+
 Inductive op :=
 | ONewSession (root : path)
 | OOpenSp (s : nat) (sp : json)
@@ -270,11 +275,20 @@ Inductive op :=
 | OMove (h : nat) (s : nat)
 | OClone (s : nat) (h : nat)
 | OTree
-| OQuiet.      (* "no file-system mutation at all since the previous OQuiet" *)
+| OQuiet       (* "no file-system mutation at all since the previous OQuiet" *)
+(* --- added for C03 *)
+| ORemove (h : nat)
+| OClear (h : nat)
+| OReset (h : nat)
+| ODocSet (h : nat) (k : str) (v : json)
+| OUpdateCache (s : nat)
+| OCheck (s : nat)
+| OSnap.       (* raw walk of all workspaces + the view through a fresh Project of every root + check() *)
 
 Inductive oval :=
 | VUnit | VBool (b : bool) | VNum (n : N) | VStr (s : str) | VStrs (l : list str) | VJson (j : json)
-| VIdPath (i : str) (p : path) | VExn (e : exn) | VTree (t : fs) | VTreeSame.
+| VIdPath (i : str) (p : path) | VExn (e : exn) | VTree (t : fs) | VTreeSame
+| VSnap (t : fs) (vs : list (path * list jview * bool)) | VSnapSame | VOptNum (n : option N).
 
 
 Section WS.
@@ -395,6 +409,9 @@ Section WS.
         set_cached (set_H w j (mkH (h_s h) (h_id h) (Some d) (h_cell h) (h_dk h))) js' d
     end.
 
+  (* _initialize_lazy_properties: the handles drop their document objects *)
+  Definition reset_docs (w : world) (js : list nat) : world := fold_left (fun w j => set_HD w j None) js w.
+
   (* _StatePointDict._save: the re-key.  [susp]: _suspend_sync is raised (a nested collection saves the
      root in the middle of an in-place _update): since fix 3806f72 the method returns at once. *)
   Definition sp_save (susp : bool) (w : world) (ci : nat) : world * res unit :=
@@ -429,7 +446,7 @@ Section WS.
       match phase1 with
       | (w1, inr e) => (w1, inr e)
       | (w1, inl should_init) =>
-          let w2 := set_cached (set_ids w1 (c_jobs c) new_id) (c_jobs c) (c_data c) in
+          let w2 := reset_docs (set_cached (set_ids w1 (c_jobs c) new_id) (c_jobs c) (c_data c)) (c_jobs c) in
           let tmp' := wsd ++ [new_id; SPT] in
           let un := match unlink (w_fs w2) tmp' with
                     | FOk f => FOk (f, [EvUnlink tmp'])
@@ -546,7 +563,7 @@ Section WS.
   (* copy.copy(job): __setstate__ shares __dict__ (hence the cell, if it exists) and appends itself *)
   Definition copy_handle (w : world) (hi : nat) : world * res nat :=
     let hj := length (w_hs w) in
-    let w1 := add_H w (getH w hi) in
+    let w1 := set_HD (add_H w (getH w hi)) hj (getHD w hi) in
     match sp_access w1 hj with
     | (_, inr e) => (w, inr e)
     | (w2, inl ci) => (add_job w2 ci hj, inl hj)
@@ -563,7 +580,11 @@ Section WS.
       | Some ci => (add_C w1 (mkC (c_data (getC w1 ci)) [hj]), Some (length (w_cs w1)))
       | None => (w1, None)
       end in
-    let w3 := add_H w2 (mkH sj (h_id h) (h_cached h) cell' (h_dk h)) in
+    let w3' := add_H w2 (mkH sj (h_id h) (h_cached h) cell' (h_dk h)) in
+    let w3 := match getHD w hi with
+              | Some di => set_HD (add_D w3' (getD w di)) hj (Some (length (w_ds w3')))
+              | None => w3'
+              end in
     if pickle then
       match sp_access w3 hj with
       | (_, inr e) => (w, inr e)
@@ -592,7 +613,7 @@ Section WS.
             | FErr e => if dest_exists_errno e then (w2, inr (FExn EDestinationExists)) else (w2, inr (FOs e))
             | FOk f3 =>
                 let w3 := set_fs w2 f3 [EvRename (jobdir w2 h) (wsd ++ [did])] in
-                (register (set_H w3 hi (mkH sj did (Some d) None false)) sj did d, inl tt)
+                (register (set_HD (set_H w3 hi (mkH sj did (Some d) None false)) hi None) sj did d, inl tt)
             end
         end
     end.
@@ -624,27 +645,248 @@ Section WS.
       (set_H w hi (mkH (h_s h) (h_id h) (h_cached h) (h_cell h) true), inl tt)
     else init false false w hi.
 
-  Definition doc_read (w : world) (hi : nat) : world * res json :=
-    match doc_init w hi with
-    | (w1, inr e) => (w1, inr e)
-    | (w1, inl _) =>
-        match get (w_fs w1) (docfile w1 (getH w1 hi)) with
-        | None => (w1, inl (JObj []))
-        | Some Dir => (w1, inr (FOs EISDIR))
-        | Some (File c) => match c_json c with Some v => (w1, inl v) | None => (w1, inr (FExn EValueError)) end
+  (* ---- job documents: Job._document is a BufferedJSONAttrDict created lazily for the path the handle has at
+     that moment; a read loads the file if it exists and otherwise returns what the object has in memory *)
+  Definition doc_access (w : world) (hi : nat) : world * res nat :=
+    match getHD w hi with
+    | Some di => (w, inl di)
+    | None =>
+        match doc_init w hi with
+        | (w1, inr e) => (w1, inr e)
+        | (w1, inl _) =>
+            let di := length (w_ds w1) in
+            (set_HD (add_D w1 (docfile w1 (getH w1 hi), JObj [])) hi (Some di), inl di)
         end
     end.
 
-  Definition doc_reset (w : world) (hi : nat) (d : json) : world * res unit :=
-    match doc_init w hi with
+  Definition doc_load (w : world) (di : nat) : world * res unit :=
+    let '(p, d) := getD w di in
+    match get (w_fs w) p with
+    | None => (w, inl tt)
+    | Some Dir => (w, inr (FOs EISDIR))
+    | Some (File c) =>
+        match c_json c with Some v => (set_D w di (p, v), inl tt) | None => (w, inr (FExn EValueError)) end
+    end.
+
+  Definition doc_save (w : world) (di : nat) : world * res unit :=
+    let '(p, d) := getD w di in
+    match json_write (w_fs w) p d with
+    | FErr e => (w, inr (FOs e))
+    | FOk f => (set_fs w f [EvWrite (tmp_of p); EvRename (tmp_of p) p], inl tt)
+    end.
+
+  Definition doc_put (w : world) (di : nat) (d : json) : world := set_D w di (fst (getD w di), d).
+
+  (* job.document() *)
+  Definition doc_read (w : world) (hi : nat) : world * res json :=
+    match doc_access w hi with
     | (w1, inr e) => (w1, inr e)
-    | (w1, inl _) =>
-        let p := docfile w1 (getH w1 hi) in
-        match json_write (w_fs w1) p d with
-        | FErr e => (w1, inr (FOs e))
-        | FOk f => (set_fs w1 f [EvWrite (tmp_of p); EvRename (tmp_of p) p], inl tt)
+    | (w1, inl di) =>
+        match doc_load w1 di with
+        | (w2, inr e) => (w2, inr e)
+        | (w2, inl _) => (w2, inl (snd (getD w2 di)))
         end
     end.
+
+  (* job.document = d *)
+  Definition doc_reset (w : world) (hi : nat) (d : json) : world * res unit :=
+    match doc_access w hi with
+    | (w1, inr e) => (w1, inr e)
+    | (w1, inl di) => doc_save (doc_put w1 di d) di
+    end.
+
+  (* job.document[k] = v *)
+  Definition doc_set (w : world) (hi : nat) (k : str) (v : json) : world * res unit :=
+    match doc_access w hi with
+    | (w1, inr e) => (w1, inr e)
+    | (w1, inl di) =>
+        match doc_load w1 di with
+        | (w2, inr e) => (w2, inr e)
+        | (w2, inl _) =>
+            let d' := match snd (getD w2 di) with JObj kvs => JObj (aset k v kvs) | x => x end in
+            doc_save (doc_put w2 di d') di
+        end
+    end.
+
+  Definition set_dk (w : world) (hi : nat) (b : bool) : world :=
+    let h := getH w hi in set_H w hi (mkH (h_s h) (h_id h) (h_cached h) (h_cell h) b).
+
+  (* Job.remove() *)
+  Definition remove_job (w : world) (hi : nat) : world * res unit :=
+    let h := getH w hi in
+    match rmtree (w_fs w) (jobdir w h) with
+    | FErr ENOENT => (set_dk w hi false, inl tt)
+    | FErr e => (w, inr (FOs e))
+    | FOk f =>
+        let w1 := set_fs w f [EvRmtree (jobdir w h)] in
+        match getHD w1 hi with
+        | None => (set_dk w1 hi false, inl tt)
+        | Some di =>
+            (* self._document.clear() (ENOENT ignored); self._document = None *)
+            match doc_save (doc_put w1 di (JObj [])) di with
+            | (w2, inl _) | (w2, inr (FOs ENOENT)) => (set_dk (set_HD w2 hi None) hi false, inl tt)
+            | (w2, inr e) => (w2, inr e)
+            end
+        end
+    end.
+
+  (* Job.clear(): delete everything but the two signac files, then document.clear(); ENOENT swallowed *)
+  Fixpoint clear_entries (f : fs) (jd : path) (names : list str) (tr : list ev) : fres (fs * list ev) :=
+    match names with
+    | [] => FOk (f, tr)
+    | n :: rest =>
+        if str_eqb n SPF || str_eqb n DOCF then clear_entries f jd rest tr
+        else
+          let p := jd ++ [n] in
+          if isfile f p then
+            match unlink f p with FOk f1 => clear_entries f1 jd rest (tr ++ [EvUnlink p]) | FErr e => FErr e end
+          else if isdir f p then
+            match rmtree f p with FOk f1 => clear_entries f1 jd rest (tr ++ [EvRmtree p]) | FErr e => FErr e end
+          else clear_entries f jd rest tr
+    end.
+
+  Definition swallow_enoent (r : world * res unit) : world * res unit :=
+    match r with (w, inr (FOs ENOENT)) => (w, inl tt) | _ => r end.
+
+  Definition clear_job (w : world) (hi : nat) : world * res unit :=
+    let jd := jobdir w (getH w hi) in
+    swallow_enoent
+      match listdir (w_fs w) jd with
+      | FErr e => (w, inr (FOs e))
+      | FOk names =>
+          match clear_entries (w_fs w) jd names [] with
+          | FErr e => (w, inr (FOs e))
+          | FOk (f, tr) =>
+              let w1 := set_fs w f tr in
+              match doc_access w1 hi with
+              | (w2, inr e) => (w2, inr e)
+              | (w2, inl di) => doc_save (doc_put w2 di (JObj [])) di
+              end
+          end
+      end.
+
+  (* Job.reset() = clear(); init() *)
+  Definition reset_job (w : world) (hi : nat) : world * res unit :=
+    match clear_job w hi with
+    | (w1, inr e) => (w1, inr e)
+    | (w1, inl _) => init false false w1 hi
+    end.
+
+  (* ---- the persistent state point cache (.signac/statepoint_cache.json.gz): its node carries the decoded
+     mapping in c_json, the model never looks at its (gzip, time-stamped) bytes *)
+  Definition cache_path (s : session) : path := s_root s ++ [DOTSIG; CACHEFN].
+  Definition cache_file (f : fs) (s : session) : option (list (str * json)) :=
+    match get f (cache_path s) with
+    | Some (File c) => match c_json c with Some (JObj kvs) => Some kvs | _ => None end
+    | _ => None
+    end.
+  Definition merge_cache (c new : list (str * json)) : list (str * json) :=
+    fold_left (fun acc kv => aset (fst kv) (snd kv) acc) new c.
+
+  (* "if not self._sp_cache_read: self._read_cache(); self._sp_cache_read = True" *)
+  Definition ensure_read (w : world) (si : nat) : world :=
+    let s := getS w si in
+    if s_cread s then w
+    else
+      let c := match cache_file (w_fs w) s with Some kvs => merge_cache (s_cache s) kvs | None => s_cache s end in
+      set_S w si (mkS (s_root s) c true).
+
+  (* project._get_statepoint_from_workspace(id) (validate=True), as used by check() and the cache update *)
+  Definition sp_from_ws (f : fs) (wsd : path) (i : str) : res json :=
+    let bad := if isdir f (wsd ++ [i]) then FExn EJobsCorrupted else FExn EKeyError in
+    match get f (wsd ++ [i; SPF]) with
+    | Some (File c) =>
+        match c_json c with
+        | Some v => if str_eqb (calc_id frepr v) i then inl v else inr (FExn EJobsCorrupted)
+        | None => inr bad
+        end
+    | _ => inr bad
+    end.
+
+  Fixpoint add_from_ws (f : fs) (wsd : path) (c : list (str * json)) (ids : list str) : res (list (str * json)) :=
+    match ids with
+    | [] => inl c
+    | i :: rest =>
+        match sp_from_ws f wsd i with
+        | inl v => add_from_ws f wsd (aset i v c) rest
+        | inr e => inr e
+        end
+    end.
+
+  (* Project.update_cache(): returns len(cache) when the file was written, None when "up to date".
+     (cached_ids is taken BEFORE the in-memory cache is reconciled with the workspace: finding F9 of C08) *)
+  Definition update_cache (w : world) (si : nat) : world * res (option N) :=
+    let s := getS w si in
+    let file := cache_file (w_fs w) s in
+    let c0 := match file with Some kvs => merge_cache (s_cache s) kvs | None => s_cache s end in
+    let cached_ids := map fst c0 in
+    let ids := job_dirs (w_fs w) (wsp s) in
+    let c1 := filter (fun kv => str_mem (fst kv) ids) c0 in
+    match add_from_ws (w_fs w) (wsp s) c1 (filter (fun i => negb (str_mem i cached_ids)) ids) with
+    | inr e => (set_S w si (mkS (s_root s) c1 (s_cread s)), inr e)
+    | inl c2 =>
+        let w1 := set_S w si (mkS (s_root s) c2 (s_cread s)) in
+        let stale := match file with
+                     | None => true
+                     | Some kvs => negb (forallb (fun k => str_mem k cached_ids) (map fst kvs)
+                                         && forallb (fun k => str_mem k (map fst kvs)) cached_ids)
+                     end in
+        if stale then
+          let p := cache_path s in
+          match write_file (w_fs w1) (s_root s ++ [DOTSIG; CACHETMPFN]) (mkContent [] (Some (JObj c2))) with
+          | FErr e => (w1, inr (FOs e))
+          | FOk f1 =>
+              match rename f1 (s_root s ++ [DOTSIG; CACHETMPFN]) p with
+              | FErr e => (w1, inr (FOs e))
+              | FOk f2 => (set_fs w1 f2 [EvWrite (s_root s ++ [DOTSIG; CACHETMPFN]);
+                                         EvRename (s_root s ++ [DOTSIG; CACHETMPFN]) p],
+                           inl (Some (N.of_nat (length c2))))
+              end
+          end
+        else (w1, inl None)
+    end.
+
+  (* ---- the view through a fresh Project (for job in Project(root): job.id, statepoint(), document(), files) *)
+  Definition files_below (f : fs) (jd : path) : list (path * list N) :=
+    flat_map (fun e => match strip jd (fst e), snd e with
+                       | Some (n :: r), File c =>
+                           match r with
+                           | [] => if str_eqb n SPF || str_eqb n DOCF then [] else [(n :: r, c_bytes c)]
+                           | _ => [(n :: r, c_bytes c)]
+                           end
+                       | _, _ => []
+                       end) f.
+
+  Definition view_job (f : fs) (wsd : path) (i : str) : jview :=
+    let sp := match get f (wsd ++ [i; SPF]) with
+              | Some (File c) => match c_json c with
+                                 | Some v => if str_eqb (calc_id frepr v) i then Some v else None
+                                 | None => None end
+              | _ => None
+              end in
+    let doc := match get f (wsd ++ [i; DOCF]) with
+               | None => Some (JObj [])
+               | Some (File c) => c_json c
+               | Some Dir => None
+               end in
+    mkJV i sp doc (files_below f (wsd ++ [i])).
+
+  Definition view (f : fs) (root : path) : list jview := map (view_job f (root ++ [WS])) (job_dirs f (root ++ [WS])).
+
+  (* Project.check() *)
+  Definition check_ok (f : fs) (root : path) : bool :=
+    forallb (fun i => match sp_from_ws f (root ++ [WS]) i with inl _ => true | inr _ => false end)
+            (job_dirs f (root ++ [WS])).
+
+  Fixpoint dedup_paths (l : list path) (seen : list path) : list path :=
+    match l with
+    | [] => []
+    | p :: r => if existsb (path_eqb p) seen then dedup_paths r seen else p :: dedup_paths r (p :: seen)
+    end.
+  Definition roots (w : world) : list path := dedup_paths (map s_root (w_ss w)) [].
+
+  Definition snap (w : world) : oval :=
+    VSnap (w_fs w) (map (fun r => (r, view (w_fs w) r, check_ok (w_fs w) r)) (roots w)).
 
   (* job.cached_statepoint *)
   Definition cached_sp (w : world) (hi : nat) : world * res json :=
@@ -673,6 +915,13 @@ Section WS.
         end
     end.
 
+  (* cached_statepoint with the lazy read of the persistent cache inside _get_statepoint *)
+  Definition cached_sp_r (w : world) (hi : nat) : world * res json :=
+    match h_cached (getH w hi) with
+    | Some _ => cached_sp w hi
+    | None => cached_sp (ensure_read w (h_s (getH w hi))) hi
+    end.
+
   (* job.statepoint() *)
   Definition sp_read (w : world) (hi : nat) : world * res json :=
     match sp_access w hi with
@@ -693,11 +942,11 @@ Section WS.
     match o with
     | ONewSession root => let '(w1, r) := new_session w root in
                           (w1, q, match r with inl _ => VUnit | inr e => VExn (exn_of e) end)
-    | OOpenSp s sp => let '(w1, hi) := open_sp w s sp in (w1, q, VStr (h_id (getH w1 hi)))
-    | OOpenId s i => let '(w1, r) := open_id w s i in (w1, q, out_handle w1 r)
+    | OOpenSp s sp => let '(w1, hi) := open_sp (ensure_read w s) s sp in (w1, q, VStr (h_id (getH w1 hi)))
+    | OOpenId s i => let '(w1, r) := open_id (ensure_read w s) s i in (w1, q, out_handle w1 r)
     | OInit h force => let '(w1, r) := init false force w h in (w1, q, out_unit r)
     | OSp h => let '(w1, r) := sp_read w h in (w1, q, out_json r)
-    | OCached h => let '(w1, r) := cached_sp w h in (w1, q, out_json r)
+    | OCached h => let '(w1, r) := cached_sp_r w h in (w1, q, out_json r)
     | OIdPath h => (w, q, VIdPath (h_id (getH w h)) (jobdir w (getH w h)))
     | ODoc h => let '(w1, r) := doc_read w h in (w1, q, out_json r)
     | ODocReset h d => let '(w1, r) := doc_reset w h d in (w1, q, out_unit r)
@@ -734,12 +983,21 @@ Section WS.
     | OClone s h => let '(w1, r) := clone w s h in (w1, q, out_handle w1 r)
     | OTree => (w, q, VTree (w_fs w))
     | OQuiet => (w, length (w_tr w), VBool (Nat.eqb (length (w_tr w)) q))
+    | ORemove h => let '(w1, r) := remove_job w h in (w1, q, out_unit r)
+    | OClear h => let '(w1, r) := clear_job w h in (w1, q, out_unit r)
+    | OReset h => let '(w1, r) := reset_job w h in (w1, q, out_unit r)
+    | ODocSet h k v => let '(w1, r) := doc_set w h k v in (w1, q, out_unit r)
+    | OUpdateCache s => let '(w1, r) := update_cache w s in
+                        (w1, q, match r with inl n => VOptNum n | inr e => VExn (exn_of e) end)
+    | OCheck s => (w, q, if check_ok (w_fs w) (s_root (getS w s)) then VUnit else VExn EJobsCorrupted)
+    | OSnap => (w, q, snap w)
     end.
 
   (* ------------------------------------------------------------------ comparing observations *)
   Definition json_same (a b : json) : bool := json_eqb (norm a) (norm b).
 
-  Definition is_sp_name (n : str) : bool := str_eqb n SPF || str_eqb n SPT.
+  (* files compared as parsed JSON (up to key order) rather than byte-wise *)
+  Definition is_sp_name (n : str) : bool := str_eqb n SPF || str_eqb n SPT || str_eqb n DOCF || str_eqb n CACHEFN.
 
   Definition node_match (p : path) (a b : option node) : bool :=
     match a, b with
@@ -795,6 +1053,46 @@ Section WS.
     match ops with
     | [] => []
     | o :: ops' => let '(w1, q1, m) := step w q o in m :: run w1 q1 ops'
+    end.
+
+  (* ---- comparison of snapshots (C03) *)
+  Definition ojson_same (a b : option json) : bool :=
+    match a, b with Some x, Some y => json_same x y | None, None => true | _, _ => false end.
+  Definition files_same (a b : list (path * list N)) : bool :=
+    let le x y := forallb (fun e => existsb (fun e' => path_eqb (fst e) (fst e') && list_eqb N.eqb (snd e) (snd e')) y) x in
+    le a b && le b a && Nat.eqb (length a) (length b).
+  Definition jview_same (a b : jview) : bool :=
+    str_eqb (v_id a) (v_id b) && ojson_same (v_sp a) (v_sp b) && ojson_same (v_doc a) (v_doc b)
+    && files_same (v_files a) (v_files b).
+  Definition views_same (a b : list jview) : bool :=
+    Nat.eqb (length a) (length b) && forallb (fun x => existsb (jview_same x) b) a.
+  Fixpoint roots_same (a b : list (path * list jview * bool)) : bool :=
+    match a, b with
+    | [], [] => true
+    | (r, v, c) :: a', (r', v', c') :: b' => path_eqb r r' && views_same v v' && Bool.eqb c c' && roots_same a' b'
+    | _, _ => false
+    end.
+
+  (* [prev] = model fs at the previous OTree / OSnap, [pn] = number of roots then *)
+  Definition oval_match3 (prev : fs) (pn : nat) (nroots : nat) (m i : oval) : bool :=
+    match m, i with
+    | VSnap t vs, VSnap t' vs' => tree_match t t' && roots_same vs vs'
+    | VSnap t vs, VSnapSame => tree_match t prev && Nat.eqb pn nroots
+    | VOptNum a, VOptNum b => match a, b with Some x, Some y => N.eqb x y | None, None => true | _, _ => false end
+    | _, _ => oval_match prev m i
+    end.
+
+  Fixpoint run_cmp3 (w : world) (q : nat) (prev : fs) (pn : nat) (ops : list op) (outs : list oval) : bool :=
+    match ops, outs with
+    | [], [] => true
+    | o :: ops', i :: outs' =>
+        let '(w1, q1, m) := step w q o in
+        oval_match3 prev pn (length (roots w1)) m i &&
+        match o with
+        | OTree | OSnap => run_cmp3 w1 q1 (w_fs w1) (length (roots w1)) ops' outs'
+        | _ => run_cmp3 w1 q1 prev pn ops' outs'
+        end
+    | _, _ => false
     end.
 
   Definition w0 : world := mkW [] [] [] [] [] [] [].
